@@ -14,5 +14,14 @@ let dispatch = function
   | "eloc_bin" -> let a = next_mat next_z in p_opt (p_list p_q) (run_eloc_bin a)
   | "eloc_wei" -> let a = next_mat next_q in p_opt (p_list p_q) (run_eloc_wei a)
   | "assort" -> let a = next_mat next_q in let w = next_bool () in let k = next_nat () in p_opt p_q (run_assort a w k)
+  | "density" -> let a = next_mat next_q in let u = next_bool () in p_pair (p_opt p_q) p_nat (run_density a u)
+  | "jdegree" -> let a = next_mat next_q in
+      p_pair (p_mat p_z) (p_pair p_z (p_pair p_z p_z)) (run_jdegree a)
+  | "enov" -> let a = next_mat next_q in let u = next_bool () in
+      p_opt (p_list (p_pair (p_pair (p_pair p_nat p_nat) p_q) (p_pair p_q p_q))) (run_enov a u)
+  | "reachdist" -> let a = next_mat next_z in
+      p_opt (p_pair (p_mat p_bool) (p_mat (p_opt p_z))) (run_reachdist a)
+  | "findwalks" -> let a = next_mat next_z in
+      p_opt (p_pair (p_pair (p_list (p_mat p_z)) p_z) (p_list p_z)) (run_findwalks a)
   | f -> failwith ("unknown function " ^ f)
 let () = main dispatch
